@@ -239,7 +239,7 @@ def glam_representable(t, structs):
     if k == "s":
         return t[1] in ("f32", "i32", "u32")
     if k == "at":
-        return False
+        return t[1] in ("f32", "i32", "u32")  # the Rust field is the plain scalar
     if k == "v":
         return t[2] in ("f32", "i32", "u32")
     if k == "m":
